@@ -32,6 +32,9 @@ pub enum Ev {
     TriggerFull { thr: usize },
     /// model trigger only: the listener took `n` > 0 units out of the semaphore
     TriggerConsume { n: u64 },
+    /// model trigger only: the listener's blocking wait found the trigger empty and goes to sleep;
+    /// `state` = notification state word at that instant
+    Park { state: u8 },
 }
 
 /// The pattern of the known finding `event.lost_wakeup.stale_notified`: the trigger unit a notify call
@@ -171,6 +174,26 @@ pub fn check_history(log: &[Ev], cfg: &HistCfg) -> Result<HistStats, Failure> {
                 }
             }
             Ev::TriggerPost { .. } | Ev::TriggerFull { .. } | Ev::TriggerConsume { .. } => {}
+            Ev::Park { state } => {
+                // "a blocking wait never sleeps while an undelivered notification exists": every
+                // notify that has RETURNED success by now must have a report after its invocation
+                if cfg.strict_time {
+                    for (id, b) in &ok_begin_pos {
+                        if !report_pos[*id].iter().any(|p| p > b) {
+                            // known finding: the state says NOTIFIED although the trigger unit was consumed
+                            // before the notify call returned
+                            let stale = *state == 2 && trigger_consumed_before_notify_returned(&log[..pos]);
+                            return Err(Failure::new(
+                                if stale { "event.lost_wakeup.stale_notified" } else { "event.sleeps_with_undelivered_notification" },
+                                format!(
+                                    "the listener's blocking wait goes to sleep on an empty trigger (notification state {state}) although notify({id}), invoked at log position {b}, has returned Ok and id {id} has not been reported since: {}",
+                                    short(&log[..=pos])
+                                ),
+                            ));
+                        }
+                    }
+                }
+            }
             Ev::WaitEnd { fin: _, res } => {
                 let (_, blocking) = open_wait.take().expect("WaitEnd without begin");
                 if let Ok(n) = res {
